@@ -379,6 +379,19 @@ pub fn run(cx: &mut Ctx) {
             }
             conforming_case(c, Kind::Lz11, &toks, &data, "longest LZ11 forms", false);
         });
+        cx.case("lz11_extreme_expansion", |c| {
+            // 11 bytes of stream, 65810 bytes of output: legal
+            let toks = vec![Tok::Lit(5), Tok::Lit(6), Tok::Ref(65808, 2)];
+            let mut data = vec![5u8, 6];
+            for _ in 0..65808 {
+                let b = data[data.len() - 2];
+                data.push(b);
+            }
+            conforming_case(c, Kind::Lz11, &toks, &data, "two literals and one 65808-byte copy", false);
+            let toks = vec![Tok::Lit(9), Tok::Ref(18, 1), Tok::Ref(18, 1), Tok::Ref(18, 19)];
+            let data = vec![9u8; 55];
+            conforming_case(c, Kind::Lz10, &toks, &data, "LZ10 run, 18-byte copies", true);
+        });
         cx.case("window_edge", |c| {
             let mut rng = Rng::new(3);
             let mut toks: Vec<Tok> = Vec::new();
